@@ -46,6 +46,11 @@ def _str_ops(rng):
     return s, ops
 
 
+_RE_PATTERNS = ['@[a-zA-Z]+(-[a-zA-Z]+)*', '[^\\\\]"', '  +', 'http[s]?\\://', '(a|bc)*?d$', '\\s+#', '^\\w+:', ' #', '[\r\n\t]', '[:/#]', 'x*', '(x)|(y)', 'a{2,3}b?',
+                '(?:ab)+', '\\bfoo\\b', 'a|ab', '(a|ab)(c|bcd)', '.*c', '.+?c', '[^a-c]+', '\\d+\\.\\d*', '(a*)*b', '(?=a)a+', 'a(?!b)', '\\S+@\\S+', '"(\\\\.|[^"\\\\])*"']
+_RE_ALPHABET = 'abcdx y#:/"\\@-A\n\t.1\u00e9'
+
+
 def run(seed=0, rounds=150):
     rng = random.Random(seed)
     n_checks = [0]
@@ -86,6 +91,22 @@ def run(seed=0, rounds=150):
                 if (sm is None) != (wm is None) or (sm is not None and sm != wm.start(0)):
                     raise HarnessError("regex shim search mismatch %r on %r" % (pat, s))
                 n_checks[0] += 3
+        # general symbolic regex engine (symre) against re: positions, groups, finditer, sub, split on random strings
+        from .symre import SymRegex
+        for pat in _RE_PATTERNS:
+            cp = re.compile(pat)
+            sr = SymRegex(cp, force=True)
+            for _ in range(max(4, rounds // 3)):
+                s = "".join(rng.choice(_RE_ALPHABET) for _ in range(rng.randint(0, 7)))
+                for meth in ("match", "search", "fullmatch"):
+                    a, b = getattr(cp, meth)(s), getattr(sr, meth)(s)
+                    if (a is None) != (b is None) or (a is not None and [a.span(g) for g in range(cp.groups + 1)] != [b.span(g) for g in range(cp.groups + 1)]):
+                        raise HarnessError("symre self-test: %s %r on %r" % (meth, pat, s))
+                if [m.span() for m in cp.finditer(s)] != [m.span() for m in sr.finditer(s)]:
+                    raise HarnessError("symre self-test: finditer %r on %r" % (pat, s))
+                if cp.sub("<>", s) != _plain(sr.sub("<>", s)) or cp.split(s) != _plain(sr.split(s)):
+                    raise HarnessError("symre self-test: sub/split %r on %r" % (pat, s))
+                n_checks[0] += 6
         # numbers
         for _ in range(rounds):
             a, b, n = rng.randint(0, 9), rng.randint(0, 9), rng.randint(1, 9)
